@@ -10,6 +10,7 @@ import CspuzModel.Proofs.C15Puzzles
 import CspuzModel.Proofs.C17Reenc
 import CspuzModel.Proofs.C17Nested
 import CspuzModel.Proofs.C17TuplLoss
+import CspuzModel.Proofs.C17RoomsRe
 namespace Cspuz.C17
 open Cspuz Cspuz.Ser
 
@@ -55,9 +56,10 @@ theorem C17_total_puzzles : statement_total_puzzles := puzzleCodecs_safe
 /-- **Re-encodability** (full strength): whatever a decoder returns can be serialized, and the canonical text decodes to
 the same problem.  This statement is FALSE on the current code (`C17_reencodable_fails` below: a `Tupl` whose element
 decodes several items that its serializer does not take in one call).  Proved parts: nested `Seq`/`Grid` terms over
-closed flat bases (`C17_reencodable_nested`), and the six grid puzzle codecs (`C17_reencodable_puzzles`); NOT proved for
-other terms with `Tupl`/`OneOf` above a `Seq`/`Grid`, nor for the three `Rooms`-based codecs, where it would need "every
-decoded partition is a valid partition in canonical form". -/
+closed flat bases (`C17_reencodable_nested`), the six grid puzzle codecs (`C17_reencodable_puzzles`), `Rooms` and
+`ValuedRooms` over such value terms (`C17_reencodable_rooms`, `C17_reencodable_valued_rooms`, from "every decoded
+partition is a valid partition in canonical form": `C17_rooms_decoded_canonical`) and the three `Rooms`-based puzzle
+codecs (`C17_reencodable_rooms_puzzles`); NOT proved for other terms with `Tupl`/`OneOf` above a `Seq`/`Grid`/`Rooms`. -/
 def statement_reencodable : Prop :=
   ∀ (c : Comb), wf c = true → single c = true →
     ∀ (s : Str) (h w : Nat) (p : PyVal), deProblem c s h w = .ok p →
@@ -119,6 +121,58 @@ def statement_reencodable_puzzles : Prop :=
 
 theorem C17_reencodable_puzzles : statement_reencodable_puzzles := ⟨puzzles_reencodable, puzzles_reencodable_url⟩
 
+/-- **What `Rooms.deserialize` returns is always a valid partition in canonical form.**  For ANY text, any start index,
+any board size and both flags (`skip_on_error`, `allow_redundant_border`): whenever a value is returned, the board has
+cells, and the value is a list of rooms that is a partition of the `h × w` board into non-empty orthogonally
+connected rooms (`ValidPartition`, Spec/Rooms.lean), ordered canonically (rooms by least cell row-major, cells
+row-major: `canonRooms h w rooms = rooms`).  With `allow_redundant_border` a border between two cells of one room is
+accepted; the decoded rooms are the connected components of "no border in between" all the same. -/
+def statement_rooms_decoded_canonical : Prop :=
+  ∀ (skip allow : Bool) (h w : Nat) (s : Str) (i k : Nat) (items : List PyVal),
+    de (.rooms skip allow) ⟨h, w⟩ s i = .ok (k, items) →
+      1 ≤ h ∧ 1 ≤ w ∧ ∃ rooms, items = [roomsVal rooms] ∧ ValidPartition h w rooms ∧ canonRooms h w rooms = rooms
+
+theorem C17_rooms_decoded_canonical : statement_rooms_decoded_canonical := Cspuz.Ser.RoomsRe.rooms_decoded_canonical
+
+/-- **Re-encodability of `Rooms`** (both flags, every board size — a board without cells is refused by the decoder —
+and EVERY text): a returned room list serializes, and its canonical text decodes to the same room list.  (With
+`allow_redundant_border` the canonical text may differ from the input text.) -/
+def statement_reencodable_rooms : Prop :=
+  ∀ (skip allow : Bool) (h w : Nat) (s : Str) (p : PyVal), deProblem (.rooms skip allow) s h w = .ok p →
+    ∃ s', serProblem (.rooms skip allow) p h w = .ok s' ∧ deProblem (.rooms skip allow) s' h w = .ok p
+
+theorem C17_reencodable_rooms : statement_reencodable_rooms := Cspuz.Ser.RoomsRe.rooms_reencodable
+
+/-- **Re-encodability of `ValuedRooms(value, …)`** for every well-formed term whose value term is a closed flat base
+(as in `statement_reencodable_partial`) or a nested `Seq`/`Grid` term over one (`SeqGridTerm`), both flags, every board
+size and EVERY text: the returned `(rooms, values)` serializes and its canonical text decodes to the same pair. -/
+def statement_reencodable_valued_rooms : Prop :=
+  ∀ (v : Comb) (skip allow : Bool), wf (.valuedRooms v skip allow) = true →
+    ((FlatBase v ∧ closedBase v = true) ∨ SeqGridTerm v) →
+    ∀ (s : Str) (h w : Nat) (p : PyVal), deProblem (.valuedRooms v skip allow) s h w = .ok p →
+      ∃ s', serProblem (.valuedRooms v skip allow) p h w = .ok s' ∧ deProblem (.valuedRooms v skip allow) s' h w = .ok p
+
+theorem C17_reencodable_valued_rooms : statement_reencodable_valued_rooms :=
+  Cspuz.Ser.RoomsRe.valuedRooms_reencodable
+
+/-- **Re-encodability of the three room puzzle codecs** (lits, norinori: `Rooms()`; heyawake:
+`ValuedRooms(OneOf(HexInt(), Spaces(-1, 'g')), skip_on_error=True)`; regenerated terms), also through
+`deserialize_<puzzle>`'s call of `deserialize_problem_as_url(..., return_size=True)`: the returned value is
+`(height, width, problem)` with the height and width written in the URL, and `problem` serializes on that board to a
+canonical body that decodes to the same problem. -/
+def statement_reencodable_rooms_puzzles : Prop :=
+  (∀ pc ∈ [Gen.litsCodec, Gen.norinoriCodec, Gen.heyawakeCodec],
+    ∀ s h w p, deProblem pc.comb s h w = .ok p →
+      ∃ s', serProblem pc.comb p h w = .ok s' ∧ deProblem pc.comb s' h w = .ok p) ∧
+  (∀ pc ∈ [Gen.litsCodec, Gen.norinoriCodec, Gen.heyawakeCodec],
+    ∀ url r, deProblemAsUrl pc.comb url pc.allowed pc.allowFailure pc.returnSize = .ok r →
+      ∃ name wd hd body hh ww p, matchUrl url = some (name, wd, hd, body) ∧ pyInt hd = .ok hh ∧ pyInt wd = .ok ww ∧
+        r = .tuple [.int hh, .int ww, p] ∧
+        ∃ s', serProblem pc.comb p hh ww = .ok s' ∧ deProblem pc.comb s' hh ww = .ok p)
+
+theorem C17_reencodable_rooms_puzzles : statement_reencodable_rooms_puzzles :=
+  ⟨Cspuz.Ser.RoomsRe.rooms_puzzles_reencodable, Cspuz.Ser.RoomsRe.rooms_puzzles_reencodable_url⟩
+
 /-! ### non-vacuity: the model reproduces the concrete behaviours the property is about -/
 
 /-- `HexInt` on `"--1"` (patch D11): `None`, not `-1` -/
@@ -171,5 +225,36 @@ example : wf Cspuz.Ser.TuplLoss.term = true ∧ single Cspuz.Ser.TuplLoss.term =
 example : deProblem Cspuz.Ser.TuplLoss.term [114] 3 3 = .ok (.tuple [.list (List.replicate 9 (.int 0))]) := by rfl
 example : serProblem Cspuz.Ser.TuplLoss.term (.tuple [.list (List.replicate 9 (.int 0))]) 3 3 = .ok [46] := by rfl
 example : deProblem Cspuz.Ser.TuplLoss.term [46] 3 3 = .ok (.tuple [.list [.int 0]]) := by rfl
+
+/-- `Rooms` on a 2 × 3 board: `"kc"` decodes to three rooms, which serialize to `"kc"` again -/
+example : deProblem (.rooms false false) [107, 99] 2 3
+    = .ok (roomsVal [[(0, 0), (1, 0)], [(0, 1), (0, 2)], [(1, 1), (1, 2)]]) := by rfl
+example : serProblem (.rooms false false) (roomsVal [[(0, 0), (1, 0)], [(0, 1), (0, 2)], [(1, 1), (1, 2)]]) 2 3
+    = .ok [107, 99] := by rfl
+/-- a redundant border (`"s0"`: the border between `(0,1)` and `(0,2)` separates two cells of one room): `ValueError`,
+`None` under `skip_on_error`; accepted with `allow_redundant_border`, and then the decoded two rooms serialize to the
+canonical text `"k0"` ≠ `"s0"`, which decodes to the same two rooms -/
+example : deProblem (.rooms false false) [115, 48] 2 3 = .raised .valueError := by rfl
+example : deProblem (.rooms true false) [115, 48] 2 3 = .none := by rfl
+example : deProblem (.rooms false true) [115, 48] 2 3
+    = .ok (roomsVal [[(0, 0), (1, 0)], [(0, 1), (0, 2), (1, 1), (1, 2)]]) := by rfl
+example : serProblem (.rooms false true) (roomsVal [[(0, 0), (1, 0)], [(0, 1), (0, 2), (1, 1), (1, 2)]]) 2 3
+    = .ok [107, 48] := by rfl
+example : deProblem (.rooms false true) [107, 48] 2 3
+    = .ok (roomsVal [[(0, 0), (1, 0)], [(0, 1), (0, 2), (1, 1), (1, 2)]]) := by rfl
+example : canonRooms 2 3 [[(0, 0), (1, 0)], [(0, 1), (0, 2), (1, 1), (1, 2)]]
+    = [[(0, 0), (1, 0)], [(0, 1), (0, 2), (1, 1), (1, 2)]] := by decide
+/-- heyawake through the URL layer: `https://puzz.link/p?heyawake/3/2/kc2g1` is `(2, 3, (three rooms, [2, -1, 1]))`, and the
+problem serializes to the body `"kc2g1"` again; its value term satisfies the hypotheses of `C17_reencodable_valued_rooms` -/
+example : deProblemAsUrl Gen.heyawakeCombinator
+      [104, 116, 116, 112, 115, 58, 47, 47, 112, 117, 122, 122, 46, 108, 105, 110, 107, 47, 112, 63,
+        104, 101, 121, 97, 119, 97, 107, 101, 47, 51, 47, 50, 47, 107, 99, 50, 103, 49]
+      Gen.heyawakeCodec.allowed Gen.heyawakeCodec.allowFailure Gen.heyawakeCodec.returnSize
+    = .ok (.tuple [.int 2, .int 3, .tuple [roomsVal [[(0, 0), (1, 0)], [(0, 1), (0, 2)], [(1, 1), (1, 2)]],
+        .list [.int 2, .int (-1), .int 1]]]) := by rfl
+example : serProblem Gen.heyawakeCombinator (.tuple [roomsVal [[(0, 0), (1, 0)], [(0, 1), (0, 2)], [(1, 1), (1, 2)]],
+    .list [.int 2, .int (-1), .int 1]]) 2 3 = .ok [107, 99, 50, 103, 49] := by rfl
+example : wf Gen.heyawakeCombinator = true ∧ flatBase (.oneOf [.hexInt, .spaces (.int (-1)) 15]) = true ∧
+    closedBase (.oneOf [.hexInt, .spaces (.int (-1)) 15]) = true := ⟨by decide, by decide, by decide⟩
 
 end Cspuz.C17
